@@ -21,6 +21,13 @@ type storeDesc struct {
 	rtype    types.Type // root type of the class
 	unknown  bool       // root could not be traced: whole class
 	viaParam *ssa.Parameter
+	path     []fieldStep // fields followed (by load) from the root value to the pointer/slice used
+	resliced bool        // the slice was re-sliced on the way (may reach up to cap)
+}
+
+type fieldStep struct {
+	st  types.Type // struct type
+	idx int
 }
 
 type modSet struct {
@@ -82,24 +89,35 @@ func traceAddr(v ssa.Value) storeDesc {
 	return storeDesc{unknown: true, rtype: v.Type()}
 }
 
-// loadedFrom: is v (possibly through slicing) a value loaded from a cell?
+// loadedFrom: is v (possibly through slicing and field loads) a value
+// loaded from a cell or parameter?
 func loadedFrom(v ssa.Value) (storeDesc, bool) {
-	for depth := 0; depth < 8; depth++ {
+	var path []fieldStep
+	resliced := false
+	for depth := 0; depth < 12; depth++ {
 		switch x := v.(type) {
 		case *ssa.UnOp:
-			if x.Op == token.MUL {
-				switch a := x.X.(type) {
-				case *ssa.Alloc:
-					return storeDesc{viaCell: a}, true
-				case *ssa.Global:
-					return storeDesc{viaGlob: a}, true
-				}
+			if x.Op != token.MUL {
+				return storeDesc{}, false
+			}
+			switch a := x.X.(type) {
+			case *ssa.Alloc:
+				return storeDesc{viaCell: a, path: path, resliced: resliced}, true
+			case *ssa.Global:
+				return storeDesc{viaGlob: a, path: path, resliced: resliced}, true
+			case *ssa.FieldAddr:
+				// value loaded from a field of an object: follow the object pointer
+				pt := a.X.Type().Underlying().(*types.Pointer).Elem()
+				path = append([]fieldStep{{pt, a.Field}}, path...)
+				v = a.X
+				continue
 			}
 			return storeDesc{}, false
 		case *ssa.Slice:
 			v = x.X
+			resliced = true
 		case *ssa.Parameter:
-			return storeDesc{viaParam: x}, true
+			return storeDesc{viaParam: x, path: path, resliced: resliced}, true
 		default:
 			return storeDesc{}, false
 		}
@@ -356,6 +374,8 @@ func (c *Ctx) havocLoop(fr *frame, l *loopInfo, st *State) {
 		elem  bool
 		rtype types.Type
 		root  *Term
+		off   *Term // for slices: only [off, off+n) can be written through them
+		n     *Term
 	}
 	var regions []region
 	whole := map[HKey]bool{}
@@ -388,14 +408,22 @@ func (c *Ctx) havocLoop(fr *frame, l *loopInfo, st *State) {
 				wholeClass(s.elem, s.rtype)
 				continue
 			}
-			regions = append(regions, region{s.elem, s.rtype, cv.L[0]})
+			if root, off, n := c.followPath(st, cv, s.path, ms, s.resliced); root != nil {
+				regions = append(regions, region{s.elem, s.rtype, root, off, n})
+			} else {
+				wholeClass(s.elem, s.rtype)
+			}
 		case s.viaParam != nil:
 			pv, ok := st.regs[s.viaParam]
 			if !ok || pv.L == nil {
 				wholeClass(s.elem, s.rtype)
 				continue
 			}
-			regions = append(regions, region{s.elem, s.rtype, pv.L[0]})
+			if root, off, n := c.followPath(st, pv, s.path, ms, s.resliced); root != nil {
+				regions = append(regions, region{s.elem, s.rtype, root, off, n})
+			} else {
+				wholeClass(s.elem, s.rtype)
+			}
 		default:
 			wholeClass(s.elem, s.rtype)
 			if !s.elem {
@@ -426,7 +454,14 @@ func (c *Ctx) havocLoop(fr *frame, l *loopInfo, st *State) {
 			}
 			hs := heapSort(r.elem, s)
 			h := c.heapGet(st, k, hs)
-			st.heap[k] = Store(h, r.root, Fresh("loop."+k.String(), hs.Elem))
+			na := Fresh("loop."+k.String(), hs.Elem)
+			if r.elem && r.off != nil {
+				oldA := Select(h, r.root)
+				i := BoundVar("i", BV(64))
+				in := And(ULe(r.off, i), ULt(i, Add(r.off, r.n)))
+				c.assume(st.pc, Forall([]*Term{i}, Implies(Not(in), Eq(Select(na, i), Select(oldA, i))), []*Term{Select(na, i)}))
+			}
+			st.heap[k] = Store(h, r.root, na)
 		}
 	}
 	// cells: only those that exist before the loop
@@ -457,6 +492,42 @@ func (c *Ctx) havocLoop(fr *frame, l *loopInfo, st *State) {
 			st.ghost["wlog"] = &Val{Typ: g.Typ, L: []*Term{Fresh("wlog", g.L[0].S), Fresh("wlen", BV(64))}}
 		}
 	}
+}
+
+// followPath loads through the recorded field path starting from v; it
+// gives up (nil) when the loop may itself modify one of the objects on the path.
+func (c *Ctx) followPath(st *State, v *Val, path []fieldStep, ms *modSet, resliced bool) (*Term, *Term, *Term) {
+	cur := v
+	for _, fs := range path {
+		for _, s2 := range ms.stores {
+			if s2.rtype != nil && !s2.elem && typeKey(s2.rtype) == typeKey(fs.st) {
+				return nil, nil, nil
+			}
+		}
+		if cur.Ptr == nil {
+			return nil, nil, nil
+		}
+		stt, ok := fs.st.Underlying().(*types.Struct)
+		if !ok {
+			return nil, nil, nil
+		}
+		lo, hi := fieldRange(stt, fs.idx)
+		a := *cur.Ptr
+		a.Lo, a.Hi = cur.Ptr.Lo+lo, cur.Ptr.Lo+hi
+		a.Typ = stt.Field(fs.idx).Type()
+		cur = c.loadAddr(st, &a)
+	}
+	if cur.L == nil || len(cur.L) == 0 {
+		return nil, nil, nil
+	}
+	if _, ok := cur.Typ.Underlying().(*types.Slice); ok && len(cur.L) == 4 {
+		// writes through (re-slicings of) this slice stay inside [off, off+cap)
+		if !resliced {
+			return cur.L[0], cur.L[1], cur.L[2]
+		}
+		return cur.L[0], cur.L[1], cur.L[3]
+	}
+	return cur.L[0], nil, nil
 }
 
 var keySorts = map[HKey]*Sort{}
@@ -939,7 +1010,23 @@ func (w *World) verifyLemma(lm *Lemma) (res *FnResult) {
 		e2.st = st.clone()
 		cond := c.evalClause(&e2, en)
 		c.flushGlobalInv(st)
-		c.oblige(st, "lemma", en.Text, token.NoPos, cond)
+		if len(lm.Splits) == 0 {
+			c.oblige(st, "lemma", en.Text, token.NoPos, cond)
+			continue
+		}
+		// case split over every value of a small term (complete enumeration)
+		sp := lm.Splits[0]
+		sv := env.eval(sp.E)
+		if len(sv.L) != 1 || sv.L[0].S.Kind != SBV || sv.L[0].S.W > 10 {
+			specErr("split expression must be an integer of at most 10 bits")
+		}
+		w := sv.L[0].S.W
+		for v := uint64(0); v < 1<<uint(w); v++ {
+			hyp := Eq(sv.L[0], Const(w, v))
+			sub := Subst(cond, map[*Term]*Term{})
+			_ = sub
+			c.obligeCase(st, "lemma", fmt.Sprintf("%s:case(%s=%d)", en.Text, sp.Text, v), hyp, cond)
+		}
 	}
 	return
 }
